@@ -63,9 +63,4 @@ theorem pv_resume (c : Char) (hc : c ≠ '#' ∧ c ≠ ';' ∧ c ≠ '\n' ∧ c 
   · have e5 : (c == '\\') = false := by simpa using hb
     simp [pv, e1, e3, e4, e5]
 
-/-- KF-C03-1 as a theorem about the model: a continued line that starts with '[' ends the value -/
-theorem C03_counterexample :
-    parseValue ("a \\\n[b]\n".toList) = ("a".toList, "[b]\n".toList) := by
-  simp [parseValue, pv, trimEnd, isWs]
-
 end Parse
